@@ -3362,7 +3362,14 @@ static int expand_define () {
           if (*e == MARKS)
             {
               if (*++e == MARKS)
-                *b++ = *e++;
+                {
+                  *b++ = *e++;
+                  if (b >= buf + DEFMAX)
+                    {
+                      lexerror ("Macro expansion overflow");
+                      return 0;
+                    }
+                }
               else
                 {
                   for (q = args[*e++ - MARKS - 1]; *q;)
